@@ -80,8 +80,8 @@ def count(chk, recs, nontrivial):
 
 def c16(chk, tier):
     chk.extra["rule"] = ("one forked probe per (signal number, context): the kernel's default action (native) and "
-                         "emulate_default_handler from normal context, with the signal masked, with another signal "
-                         "blocked and pending, and from inside the signal's own action; distinct = distinct (signal, context, wait status)")
+                         "emulate_default_handler from normal context, on a second thread, with the signal masked, with "
+                         "another signal blocked and pending, and from inside the signal's own action; distinct = distinct (signal, context, wait status)")
     args = ["--all"] if tier == "thorough" else []
     out = os.path.join(WORK, "probe_C16.ndjson")
     recs = run_probe("default", args, out)
@@ -210,7 +210,9 @@ def c12(chk, tier):
     hist = ["A12,R12", "A9,A12,R12,R10", "A-1,A12,R12", "A200,R10,A10,R10", "A65,A65,A12,R12",
             "A9,X", "A12,A12,R12", "H,A9,h,A12,R12,X", "A19,A4,A8,A11,R10,A14,R14,X",
             "A128,A127,A0,R10", "A32,A33,A34,R34", "H,H,A12,h,X,R12",
-            "N9,R10,R12", "N-1,N200,N65,R10", "N14,R10,N19,X,R12", "N11,A12,R12"]
+            "N9,R10,R12", "N-1,N200,N65,R10", "N14,R10,N19,X,R12", "N11,A12,R12",
+            "A2147483647,A12,R12", "A1073741824,R10", "A-2147483648,A1000000,R10",
+            "A138,A266,R10", "A12,A140,A268,R12"]
     if tier == "thorough":
         nums = [-3, -1, 0, 1, 4, 8, 9, 11, 14, 19, 31, 32, 33, 34, 64, 65, 100, 127, 128, 129, 131,
                 2147483647, -2147483648]
